@@ -607,6 +607,10 @@ def _tsan_blocks_for_stop(err):
         addrs = [int(a, 16) for a in re.findall(r"of size \d+ at (0x[0-9a-f]+)", blk)]
         about_stop = (flag is not None and flag in addrs) or \
             re.search(r"engine::Search::stop\(|engine::Uci::stop_command|engine::Uci::quit_command", blk) is not None
+        # tear-down of the Search object at exit (detached thread, freed by ~Uci) is not stop signalling, even when the
+        # freed block happens to contain the flag
+        if re.search(r"operator delete|\bfree\b|~Uci\(\)|~Search\(\)", blk):
+            about_stop = False
         if about_stop:
             stop_blocks.append(blk)
         else:
@@ -691,6 +695,8 @@ def c06(tier, seed):
     for pt in ["THREAD_START", "GO_ENTRY", "GO_INIT_DONE", "GO_RESET_DONE", "BEFORE_BESTMOVE", "AFTER_BESTMOVE", "ITER_BEGIN(d1)", "NODE(k<=200)",
                "NODE(k>200)"]:
         c.require("parked:" + pt, 10)
+    if c.counters.get("inconclusive:watchdog-without-witness", 0):
+        c.inconclusive.append("a schedule scenario hit the wall-clock watchdog without a logical witness (machine too slow?)")
     c.require("isready-while-search-parked", 100)
     c.require("tsan-sessions-with-stop-flag-address", 40)
     return c.finish()
